@@ -519,6 +519,51 @@ class _:
 
 
 # ------------------------------------------------------------------ division
+# Sticky lemma (general quotients of mpf_div / mpf_rdiv_int): the code rounds 2*q+1 where q = floor(N/D) and the
+# remainder is not zero.  Chain of small facts, each proved as its own obligation, over the ghost names g_q (quotient),
+# g_rem, g_D (divisor mantissa), g_E (exponent of q), g_sg (sign of the result) bound by the function's ghost code.
+STICKY_POST = [
+    'g_n = bitlen(g_q) - prec',
+    'g_P = pow2(g_n)',
+    'g_R = result[1] * pow2(result[2] - g_E - g_n)',
+    'g_tr = rnd_trunc(rnd, g_sg)',
+    'g_aw = rnd_away(rnd, g_sg)',
+    'g_st = g_rem != 0',
+    # --- remainder != 0: the code rounded 2q+1 with unit 2P at exponent E-1
+    'lemma_pow2_succ(g_n)',
+    'assert implies(g_st, pow2(bitlen(2 * g_q + 1) - prec) == 2 * g_P)',
+    'g_P2 = pow2(bitlen(2 * g_q + 1) - prec)',
+    'g_R2 = result[1] * pow2(result[2] - (g_E - 1) - (bitlen(2 * g_q + 1) - prec))',
+    'assert implies(g_st, g_R2 == g_R)',
+    'lemma_mul_eq2(g_R2, g_R, g_P2, 2 * g_P)',
+    'assert implies(g_st, g_R2 * g_P2 == 2 * g_R * g_P)',
+    'assert implies(g_st and g_tr, 2 * g_R * g_P <= 2 * g_q + 1 and 2 * g_q + 1 < 2 * g_R * g_P + 2 * g_P)',
+    'assert implies(g_st and g_tr, g_R * g_P <= g_q and g_q + 1 <= g_R * g_P + g_P)',
+    'assert implies(g_st and g_aw, 2 * g_R * g_P - 2 * g_P < 2 * g_q + 1 and 2 * g_q + 1 <= 2 * g_R * g_P)',
+    'assert implies(g_st and g_aw, g_R * g_P - g_P <= g_q and g_q + 1 <= g_R * g_P)',
+    'assert implies(g_st and not g_tr and not g_aw, -2 * g_P <= 4 * g_q + 2 - 4 * g_R * g_P and 4 * g_q + 2 - 4 * g_R * g_P <= 2 * g_P)',
+    'assert implies(g_st and not g_tr and not g_aw, -g_P <= 2 * g_q - 2 * g_R * g_P and 2 * g_q - 2 * g_R * g_P <= g_P - 2)',
+    # --- remainder == 0: the code rounded q itself with unit P at exponent E
+    'assert implies(not g_st and g_tr, g_R * g_P <= g_q and g_q < g_R * g_P + g_P)',
+    'assert implies(not g_st and g_aw, g_R * g_P - g_P < g_q and g_q <= g_R * g_P)',
+    'assert implies(not g_st and not g_tr and not g_aw, -g_P <= 2 * g_q - 2 * g_R * g_P and 2 * g_q - 2 * g_R * g_P <= g_P)',
+    'lemma_mul_le_r(2 * g_q - 2 * g_R * g_P, g_P, g_D)',
+    'lemma_mul_cancel_eq(2 * g_q - 2 * g_R * g_P, g_P, g_D)',
+    'lemma_mul_cancel_eq(2 * g_q - 2 * g_R * g_P, -g_P, g_D)',
+    # --- times D (the instances name the products)
+    'lemma_mul_le_r(g_R * g_P, g_q, g_D)',
+    'lemma_mul_le_r(g_q + 1, g_R * g_P + g_P, g_D)',
+    'lemma_mul_le_r(g_R * g_P - g_P, g_q, g_D)',
+    'lemma_mul_le_r(g_q + 1, g_R * g_P, g_D)',
+    'lemma_mul_lt_r(g_q, g_R * g_P + g_P, g_D)',
+    'lemma_mul_lt_r(g_R * g_P - g_P, g_q, g_D)',
+    'lemma_mul_le_r(g_q, g_R * g_P, g_D)',
+    'lemma_mul_le_r(-g_P, 2 * g_q - 2 * g_R * g_P, g_D)',
+    'lemma_mul_le_r(2 * g_q - 2 * g_R * g_P, g_P - 2, g_D)',
+    'lemma_mul_eq(2 * g_q - 2 * g_R * g_P, 2 * g_q - 2 * g_R * g_P, g_D)',
+]
+
+
 @contract(M + 'mpf_div')
 class _:
     shapes = dict(s='mpf', t='mpf', prec='int')
@@ -550,7 +595,7 @@ class _:
     ghost = {
         ('tsign, tman, texp, tbc = t', 0, 'after'): ['split ssign 0 1', 'split tsign 0 1'],
         ('quot, rem = divmod(sman << extra, tman)', 0, 'after'): [
-            'g_q = quot', 'g_rem = rem', 'g_E = sexp - texp - extra', 'g_x = extra',
+            'g_q = quot', 'g_rem = rem', 'g_D = tman', 'g_E = sexp - texp - extra', 'g_x = extra', 'g_sg = sign',
             # N >= 2**(sbc-1+extra) >= 2**(prec+4+tbc) > (2**(prec+4)) * tman  ==>  q >= 2**(prec+4)
             'lemma_pow2_add(sbc - 1, g_x)',
             'lemma_mul_le_r(pow2(sbc - 1), sman, pow2(g_x))',
@@ -563,39 +608,7 @@ class _:
             'lemma_bitlen_2x1(quot)',
         ],
     }
-    post_hints = [
-        'g_n = bitlen(g_q) - prec',
-        'g_P = pow2(g_n)',
-        'g_R = result[1] * pow2(result[2] - g_E - g_n)',
-        'g_sg = xor01(s[0], t[0])',
-        'g_tr = rnd_trunc(rnd, g_sg)',
-        'g_aw = rnd_away(rnd, g_sg)',
-        'g_st = g_rem != 0',
-        # --- remainder != 0: the code rounded 2q+1 with unit 2P at exponent E-1
-        'lemma_pow2_succ(g_n)',
-        'assert implies(g_st, pow2(bitlen(2 * g_q + 1) - prec) == 2 * g_P)',
-        'assert implies(g_st, result[1] * pow2(result[2] - (g_E - 1) - (bitlen(2 * g_q + 1) - prec)) == g_R)',
-        'assert implies(g_st and g_tr, 2 * g_R * g_P <= 2 * g_q + 1 and 2 * g_q + 1 < 2 * g_R * g_P + 2 * g_P)',
-        'assert implies(g_st and g_tr, g_R * g_P <= g_q and g_q + 1 <= g_R * g_P + g_P)',
-        'assert implies(g_st and g_aw, 2 * g_R * g_P - 2 * g_P < 2 * g_q + 1 and 2 * g_q + 1 <= 2 * g_R * g_P)',
-        'assert implies(g_st and g_aw, g_R * g_P - g_P <= g_q and g_q + 1 <= g_R * g_P)',
-        'assert implies(g_st and not g_tr and not g_aw, -2 * g_P <= 4 * g_q + 2 - 4 * g_R * g_P and 4 * g_q + 2 - 4 * g_R * g_P <= 2 * g_P)',
-        'assert implies(g_st and not g_tr and not g_aw, -g_P <= 2 * g_q - 2 * g_R * g_P and 2 * g_q - 2 * g_R * g_P <= g_P - 2)',
-        # --- remainder == 0: the code rounded q itself with unit P at exponent E
-        'assert implies(not g_st and g_tr, g_R * g_P <= g_q and g_q < g_R * g_P + g_P)',
-        'assert implies(not g_st and g_aw, g_R * g_P - g_P < g_q and g_q <= g_R * g_P)',
-        # --- times D (the instances name the products)
-        'lemma_mul_le_r(g_R * g_P, g_q, tman)',
-        'lemma_mul_le_r(g_q + 1, g_R * g_P + g_P, tman)',
-        'lemma_mul_le_r(g_R * g_P - g_P, g_q, tman)',
-        'lemma_mul_le_r(g_q + 1, g_R * g_P, tman)',
-        'lemma_mul_lt_r(g_q, g_R * g_P + g_P, tman)',
-        'lemma_mul_lt_r(g_R * g_P - g_P, g_q, tman)',
-        'lemma_mul_le_r(g_q, g_R * g_P, tman)',
-        'lemma_mul_le_r(-g_P, 2 * g_q - 2 * g_R * g_P, tman)',
-        'lemma_mul_le_r(2 * g_q - 2 * g_R * g_P, g_P - 2, tman)',
-        'lemma_mul_eq(2 * g_q - 2 * g_R * g_P, 2 * g_q - 2 * g_R * g_P, tman)',
-    ]
+    post_hints = STICKY_POST
 
 
 @contract(M + 'mpf_rdiv_int')
@@ -618,8 +631,23 @@ class _:
     def ensures_value(n, t, prec, rnd, result):
         return RDivIntSpec(result, n, t, prec, rnd)
 
-    gaps = [dict(name='general quotient (sticky remainder bit)', clauses=['value'],
-                 cond=lambda n, t: n != 0 and t[1] != 0, gen='rdiv_inputs')]
+    gaps = []
+    ghost = {
+        ('sign, man, exp, bc = t', 0, 'after'): ['split sign 0 1'],
+        ('quot, rem = divmod(n << extra, man)', 0, 'after'): [
+            'g_q = quot', 'g_rem = rem', 'g_D = man', 'g_E = -exp - extra', 'g_sg = sign',
+            # N = n * 2**extra >= 2**(prec+5+bc) > 2**(prec+5) * man  ==>  q >= 2**(prec+5)
+            'lemma_pow2_add(prec + 5, bc)',
+            'lemma_mul_le_r(1, n, pow2(extra))',
+            'lemma_mul_le_r(quot + 1, pow2(prec + 5), man)',
+            'lemma_mul_lt_r(man, pow2(bc), pow2(prec + 5))',
+            'assert quot >= pow2(prec + 5)',
+            'lemma_pow2_le(prec + 4, prec + 5)',
+            'lemma_bitlen_ge(quot, prec + 5)',
+            'lemma_bitlen_2x1(quot)',
+        ],
+    }
+    post_hints = STICKY_POST
 
 
 @contract(M + 'from_rational')
